@@ -657,6 +657,19 @@ def shape_scripts():
         (["xs := [1, 2, 3]", "[xs[0], xs[2]] = [xs[2], xs[0]]", "print(xs)"], [[3, 2, 1]]),
         (["o := {\"a\": 1}", "[o.a, o.b] = [5, 6]", "print(o)"], [{"a": 5, "b": 6}]),
         (["o := {\"a\": 1}", "{\"a\": o.z} = o", "print(o)"], [{"a": 1, "z": 1}]),
+        # the shorthand `_` names the property `_` (and discards it): the rest is what the pattern did not name, whether or not
+        # the source has that property — in every binding position
+        (["{_, ..r} := {\"_\": 1, \"a\": 2}", "print(r)"], [{"a": 2}]),
+        (["{_, a, ..r} := {\"_\": 1, \"a\": 2, \"b\": 3}", "print([a, r])"], [[2, {"b": 3}]]),
+        (["{a, _, ..r} := {\"_\": 1, \"a\": 2, \"b\": 3}", "print([a, r])"], [[2, {"b": 3}]]),
+        (["{_, ..r} := {\"a\": 2}", "print(r)"], [{"a": 2}]),
+        (["{_, ..r} := {\"_\": 1}", "print(r)"], [{}]),
+        (["r := 0", "{_, ..r} = {\"_\": 5, \"z\": 6}", "print(r)"], [{"z": 6}]),
+        (["fn f({_, ..r}) { return r; }", "print(f({\"_\": 1, \"k\": 2}))", "print(f({\"k\": 2}))"], [{"k": 2}, {"k": 2}]),
+        (["for [i, {_, ..r}] in [{\"_\": 1, \"k\": 2}] { print(r); }", "print(0)"], [{"k": 2}, 0]),
+        (["[x, {_, ..r}] := [1, {\"_\": 1, \"k\": 2}]", "print(r)"], [{"k": 2}]),
+        (["{\"_\": u, ..r} := {\"_\": 1, \"k\": 2}", "print([u, r])"], [[1, {"k": 2}]]),
+        (["{_, ..r} := {\"_\": 1, \"__\": 2, \"_a\": 3}", "print(r)"], [{"__": 2, "_a": 3}]),
     ]
     for lines, outs in fine:
         sc = L.Script()
